@@ -1,6 +1,6 @@
 (* C03 -- slab pool: policy protocol -- map/unmap pairing, page accounting, poisoning. *)
 From Coq Require Import List NArith Bool Permutation.
-From FV Require Import Slab.SlabModel Slab.SlabInv Slab.SlabProto Slab.SlabC01 Slab.SlabLog.
+From FV Require Import Slab.SlabModel Slab.SlabInv Slab.SlabProto Slab.SlabC01 Slab.SlabLog Slab.SlabPoison.
 Import ListNotations.
 Local Open Scope N_scope.
 
@@ -42,12 +42,29 @@ Theorem C03_free_unmaps_only_mapped_partial :
 Proof. exact step_free_unmaps_mapped. Qed.
 Print Assumptions C03_free_unmaps_only_mapped_partial.
 
-(* NOT PROVED (kept visible): C03_poison_protocol -- with poison = true and fresh mappings fully poisoned, folding the
-   CPoison/CUnpoison/CUnpoisonExpand calls of the log over a byte shadow leaves (a) the requested bytes of every live
-   block unpoisoned, (b) a freed small block poisoned except its first 8 bytes, (c) every CAccess range unpoisoned at
-   the time of the access.  The callback log itself (with arguments) and the CAccess-free policy calls are compared with
-   the real code on every run, and the harness evaluates (a)-(c) on the real code with its own byte shadow and ASan;
-   what is missing is the Coq proof that the model's log has properties (a)-(c).  See comp/slab/NOTES.md. *)
+(* Poisoning, part (a) of C03_poison_protocol.  The shadow is computed from the callback log ALONE: start all-poisoned
+   (fresh mappings arrive poisoned), [poison]/[unmap] clear a range, [unpoison]/[unpoison_expand] set it ([sh_fold]).
+   For a policy with poison hooks, after every prefix of every admissible history every requested byte of every live
+   block is unpoisoned. *)
+Theorem C03_poison_live_requested_partial :
+  forall (c : cfg) (ops : list op),
+    cfg_ok c = true -> poison c = true -> policy_ok c ops -> api_ok c ops -> history_short ops ->
+    forall pre, prefix pre ops ->
+    let s := run c pre in
+    let sh := sh_fold sh0 (log c pre) in
+    forall b x, In b (live s) -> bk_p b <= x -> x < bk_p b + N.max (bk_req b) 1 -> sh x = true.
+Proof. exact C03_poison_live_main. Qed.
+Print Assumptions C03_poison_live_requested_partial.
+
+(* NOT PROVED (the rest of C03_poison_protocol, kept visible): with the same shadow,
+   (b) a freed small block is poisoned except its first 8 bytes (the link word), and
+   (c) every CAccess range of the log (frame headers, link words, memcpy source and destination) is unpoisoned at the
+       time of the access.
+   Missing: an invariant relating the shadow to the free lists and the frame headers (the proof of (a) only needs that
+   poison calls stay inside the dying block / region).  Both are evaluated on the real code on every run: the harness
+   keeps its own bit-per-byte shadow (oracle kind `poison`) and forwards the calls to ASan manual poisoning, so any
+   pool access to a poisoned byte traps (`poison-access`; this is how D01 was found); the model's callback log is
+   compared with the real one line by line. *)
 
 Definition c03_cfg : cfg := mkCfg 4096 4096 4096 4 false true 40 104.
 Definition c03_ops : list op :=
@@ -58,6 +75,7 @@ Example C03_hyps_satisfiable :
   /\ proto [] (log c03_cfg c03_ops) = Some [(65536, 8192)]
   /\ mapped (run c03_cfg c03_ops) = [(65536, 8192)]
   /\ used (run c03_cfg c03_ops) = 1
+  /\ (let sh := sh_fold sh0 (log c03_cfg c03_ops) in sh 65536 = true /\ sh 69504 = true /\ sh 69528 = false /\ sh 20480 = false)
   /\ filter is_mu (log c03_cfg c03_ops) =
      [CMap 16384 0 20480; CMap 8192 0 65536; CMap 20480 0 131072; CUnmap 20480 16384;
       CMap 28672 0 262144; CUnmap 131072 20480; CUnmap 262144 28672].
